@@ -476,6 +476,7 @@ void begin_op(uint32_t op_index, int64_t alloc_fail_at, int64_t scalar_throw_at,
   c->scalar_throw_at = scalar_throw_at;
   c->cb_throw_at = cb_throw_at;
   c->fired_alloc = c->fired_scalar = c->fired_cb = 0;
+  c->note = 0;
 }
 
 // ------------------------------------------------------------------ seams
@@ -803,6 +804,8 @@ static void death_line(const char *how) {
   write_num(c->op_index);
   write_str(" kind=");
   write_str(g_namer ? g_namer(c->op_kind) : "?");
+  write_str(" note=");
+  write_num(c->note);
   write_str(" lib=");
   write_num(c->lib_depth > 0 && !c->exempt);
   write_str("\n");
